@@ -47,6 +47,7 @@ def run(ctx):
     degenerate(ctx)
     save_restore(ctx)
     plumbing(ctx)
+    transformed_selection(ctx)
 
 
 SEG_KINDS = ("Move", "Line", "Arc", "Close", "QuadraticBezier", "CubicBezier")
@@ -60,24 +61,24 @@ def has_call(node, attr):
     return any(isinstance(c, ast.Call) and isinstance(c.func, ast.Attribute) and c.func.attr == attr for c in ast.walk(node))
 
 
-def common_leaf(node, degenerate=False):
+def common_leaf(node, degenerate=False, transformed=False, identity=True):
     """Valuation of the tests every decomposition shares: untransformed, strict, not degenerate."""
     if isinstance(node, ast.Call) and isinstance(node.func, ast.Attribute) and node.func.attr == "is_degenerate":
         return degenerate
     if isinstance(node, ast.Call) and isinstance(node.func, ast.Attribute) and node.func.attr == "is_identity":
-        return True
+        return identity
     if isinstance(node, ast.Name) and node.id == "transformed":
-        return False
+        return transformed
     if isinstance(node, ast.Attribute) and node.attr == "_strict":
         return True
     return None
 
 
-def rect_leaf(holder, zero, degenerate=False):
+def rect_leaf(holder, zero, degenerate=False, transformed=False, identity=True):
     RX, RY = atom("self.rx"), atom("self.ry")
 
     def leaf(node):
-        v = common_leaf(node, degenerate)
+        v = common_leaf(node, degenerate, transformed, identity)
         if v is not None:
             return v
         if isinstance(node, ast.Compare):
@@ -447,3 +448,30 @@ def plumbing(ctx):
             or any(isinstance(n, ast.Attribute) and n.attr == "point_in_matrix_space" and is_tr(n.value) for n in ast.walk(fn))
         ctx.ob("R06.5", "%s.segments" % cname, mult and not scalar, "scalar quantities derived from the matrix: %s; applies matrix: %s" % (scalar, mult), fn.lineno,
                "a transformed decomposition rebuilt from radii/rotation read off the matrix is exact only for similarity-like matrices")
+
+
+def transformed_selection(ctx):
+    """When is the matrix applied?  transformed and not identity -> the image of the untransformed decomposition; otherwise the decomposition itself."""
+    from ..segeval import Mapped
+
+    for tr, ident in ((True, False), (True, True), (False, False)):
+        tag = "transformed=%s, identity transform=%s" % (tr, ident)
+        holder = {}
+        fn = ctx.fn("Rect.segments", "R06.5")
+        ev = SegEval(ctx, "R06.5", "Rect.segments[%s]" % tag, SEG_KINDS, lambda t, lf=rect_leaf(holder, True, transformed=tr, identity=ident): boolean(t, lf))
+        holder["ev"] = ev
+        seq = result_sequence(ev, ev.run(fn.body), "R06.5", "Rect.segments[%s]" % tag)
+        mapped = len(seq) == 1 and isinstance(seq[0], Mapped) and seq[0].what.replace(" ", "") == "self.transform" and len(seq[0].inner) == 5
+        plain = len(seq) == 5 and all(isinstance(x, Seg) for x in seq)
+        want_mapped = tr and not ident
+        ctx.ob("R06.5", "Rect.segments[%s]" % tag, mapped if want_mapped else plain, "image of the decomposition" if mapped else "plain decomposition" if plain else "neither", fn.lineno,
+               "the matrix is applied exactly when a transformed decomposition is requested (and the transform is not the identity)")
+        fn, ev, out = extract(ctx, "_Polyshape.segments", "R06.5", lambda n, tr=tr, ident=ident: common_leaf(n, transformed=tr, identity=ident)
+                              if not (isinstance(n, ast.Call) and call_name(n) == "isinstance") else False, point_lists=("self.points",))
+        seq = result_sequence(ev, out, "R06.5", "_Polyshape.segments[%s]" % tag)
+        first = seq[0].args[1] if seq and isinstance(seq[0], Seg) and len(seq[0].args) > 1 else None
+        base = first[1] if isinstance(first, tuple) and len(first) == 3 else None
+        is_img = isinstance(base, str) and base.startswith("map(") and "self.transform" in base and base.endswith("self.points)")
+        is_plain = base == "self.points"
+        ctx.ob("R06.5", "_Polyshape.segments[%s]" % tag, is_img if want_mapped else is_plain, str(base), fn.lineno,
+               "the matrix is applied exactly when a transformed decomposition is requested (and the transform is not the identity)", sample=False)
